@@ -597,7 +597,7 @@ def rules(repo, tier):
     from ..mode import mode_rules
     from ..callsig import rule_callsig
     from ..docsig import rule_docsig
-    return list(_rules_core(repo, tier)) + [rule_view07(repo), rule_memo(repo, 'C07.MEMO', 'history independence: nothing computed from the contents of a tensor argument is kept '
+    return list(_rules_core(repo, tier)) + [rule_view07(repo), __import__('sa.mode', fromlist=['x']).rule_sharedstate(repo, 'C07.SHAREDSTRAT', ['pypose.optim.strategy']), rule_memo(repo, 'C07.MEMO', 'history independence: nothing computed from the contents of a tensor argument is kept '
                                                       'under the identity, address or version of that tensor, in module-level storage, or published from a generator '
                                                       'before it is complete - a later call with the same object and other contents must not be answered from it',
                                                       ['pypose.optim.optimizer', 'pypose.optim.solver', 'pypose.optim.corrector', 'pypose.optim.functional'], floor=3),
